@@ -248,8 +248,11 @@ func (e *twinEnv) mixedOps() []mixedOp {
 		one("AddRecord(A,a,by=W)", s(e.W), aoltypes.NewMsgAddRecordRequest("a", []byte("k2"), []byte("v2"), e.W.Bech, e.A.Bech, "")),
 		one("AddRecord(A,a,by=X)", s(e.X), aoltypes.NewMsgAddRecordRequest("a", []byte("kx"), []byte("vx"), e.X.Bech, e.A.Bech, "")),
 		one("DeleteWriter(A,a,W)", s(e.A), aoltypes.NewMsgDeleteWriter("a", e.W.Bech, e.A.Bech)),
-		{"UpdateDID(d1,D2)", func(w *world.World) world.TxSpec {
+		{"UpdateDID(d1,D2+services-with-a-repeated-id)", func(w *world.World) world.TxSpec {
 			doc := k.doc("D2", e.Did)
+			for _, id := range []string{"s0", "s1", "s2", "s3", "s4", "s5", "s0"} { // ids are not required to be unique
+				doc.Services = append(doc.Services, &didtypes.Service{Id: id, Type: "T-" + id, ServiceEndpoint: "https://example.org/" + id + fmt.Sprint(len(doc.Services))})
+			}
 			return world.TxSpec{Msgs: []sdk.Msg{&didtypes.MsgUpdateDIDRequest{Did: e.Did, Document: doc, VerificationMethodId: k.vmID(e.Did, 1), Signature: k.sign(doc, seqOf(w, e.Did), 1), FromAddress: e.B.Bech}}, Signers: s(e.B), Fee: aolFee}
 		}},
 		{"DeactivateDID(d1,k1)", func(w *world.World) world.TxSpec {
@@ -658,7 +661,7 @@ func variantCases(e *twinEnv, shard, n int) []*histCase {
 		if gi%n != shard {
 			continue
 		}
-		blocks := [][]int{{0, 2, 5}}
+		blocks := [][]int{{0, 2, 5}, {10, 9, 12}} // second block: a mint by a non-owner, a token transfer, a denom transfer
 		h, obs := e.buildHistoryG(blocks, gv)
 		out = append(out, &histCase{blocks: blocks, name: "genesis=" + gv + " " + histName(e.mixedOps(), blocks), hist: h, obsA: obs})
 	}
